@@ -45,6 +45,7 @@ class Ctx:
         self.stats = {"forks": 0, "prune_checks": 0}
         self.declared_raises = None
         self.cvx = []  # cvxpy problems solved during execution (see cvxmodel)
+        self.fresh_log = []  # z3 constants created during execution (loop witnesses etc.)
         self._abs_cache = {}
 
     def __enter__(self):
@@ -338,6 +339,7 @@ class Exec:
         self.hooks = hooks or {}
         self.max_paths = max_paths
         self.depth = 0
+        self.setmode = False  # set-level mode: [] and set() are symbolic collections
         from . import libcalls
         from . import cvxmodel  # noqa: F401 (registers the cvxpy DSL)
 
@@ -467,7 +469,10 @@ class Exec:
         fr = st.frame
         while fr is not None:
             if name in fr.locals:
-                return fr.locals[name]
+                v = fr.locals[name]
+                if type(v).__name__ == "Poison":
+                    raise Unsupported("loop-local temporary %s is read outside the iteration that assigned it (%s)" % (name, self.where(node, st) if node is not None else "?"))
+                return v
             fr = fr.parent
         return self.lookup_global(name, st.frame.module, st, node)
 
@@ -511,6 +516,10 @@ class Exec:
         return [(s, v if isinstance(v, Abort) else tuple(v)) for s, v in self.ev_seq(node.elts, st)]
 
     def ev_List(self, node, st):
+        if self.setmode and not node.elts:
+            from . import setmode
+
+            return [(st, setmode.SSeq(self.ctx, "lst"))]
         return [(s, v if isinstance(v, Abort) else list(v)) for s, v in self.ev_seq(node.elts, st)]
 
     def ev_Set(self, node, st):
